@@ -268,17 +268,32 @@ class Lexer:
         Construct a CharacterConstant by parsing a string.
         Return a CharacterConstant and advance position.
 
-        <character-constant> := '''<alpha>'''
+        <character-constant> := '''[<character>|<escape-sequence>]'''
         """
         col = self.pos
         try:
             self.match("'")
 
-            # A character constant may be an escaped sequence
-            # We assume a single alpha-numerical character or space
+            # A character constant may be an escape sequence: a simple
+            # escape (e.g. \n), a backslash followed by up to three octal
+            # digits, or \x followed by hexadecimal digits.
+            # Otherwise we assume a single printable character.
             if self.read() == "\\" and self.read(2).isprintable():
-                value = self.read(2)
-                self.pos += 2
+                length = 2
+                if self.read(2)[1:] in list("01234567"):
+                    while (
+                        length < 4
+                        and self.string[self.pos + length :][:1]
+                        in list("01234567")
+                    ):
+                        length += 1
+                elif self.read(2) == "\\x":
+                    while self.string[self.pos + length :][:1] in list(
+                        "0123456789abcdefABCDEF",
+                    ):
+                        length += 1
+                value = self.read(length)
+                self.pos += length
             elif self.read().isprintable():
                 value = self.read()
                 self.pos += 1
@@ -2033,7 +2048,7 @@ class ExpressionEvaluator(Parser):
         # Convert from character literals to integer value.
         try:
             constant = self.match_type(CharacterConstant)
-            return np.int64(ord(constant.token))
+            return np.int64(self.__character_value(constant.token))
         except ParseError:
             self.pos = initial_pos
 
@@ -2056,6 +2071,34 @@ class ExpressionEvaluator(Parser):
             "Expected integer constant, character constant, identifier or "
             + "function call.",
         )
+
+    @staticmethod
+    def __character_value(spelling):
+        """
+        Return the value of a character constant, given its spelling
+        without the enclosing quotes.
+        """
+        simple_escapes = {
+            "n": 10,
+            "t": 9,
+            "r": 13,
+            "a": 7,
+            "b": 8,
+            "f": 12,
+            "v": 11,
+            "\\": 92,
+            "'": 39,
+            '"': 34,
+            "?": 63,
+        }
+        if not spelling.startswith("\\"):
+            return ord(spelling)
+        escape = spelling[1:]
+        if escape in simple_escapes:
+            return simple_escapes[escape]
+        if escape.startswith("x"):
+            return int(escape[1:], 16)
+        return int(escape, 8)
 
     def primary(self):
         """
